@@ -88,7 +88,7 @@ def make_data(case):
         # (an empty python list has no element type; it is always passed as a typed array)
         warr = np.array(w) if case.get("wform", "array") == "array" or len(w) == 0 else list(w)
         if isinstance(warr, np.ndarray) and case["wkind"] == "int":
-            warr = warr.astype(np.int64)
+            warr = warr.astype(case.get("wdtype") or np.int64)
         if isinstance(warr, np.ndarray) and case["wkind"] in ("dyadic", "float"):
             warr = warr.astype(np.float64)
     k = case.get("rows")
@@ -135,6 +135,10 @@ def assert_histogram(ctx: Ctx, h, case, ps_expected=None):
     m = model.hist1d(ps, data, weights)
     n = sum(1 for v in data if not math.isnan(v))
     dt = expected_dtype(case)
+    if case.get("wdtype") and not case.get("dtype"):
+        # integer weights of a narrow type: the histogram may keep that type or widen it, but stays integral
+        require(h.dtype.kind == "i", "dtype", f"reported {h.dtype} for {case['wdtype']} weights")
+        dt = h.dtype
     require(h.dtype == dt, "dtype", f"reported {h.dtype}, expected {dt}")
     require(h.frequencies.dtype == dt and h.errors2.dtype == dt, "array_dtype",
             f"{h.frequencies.dtype}/{h.errors2.dtype} vs {dt}")
@@ -286,14 +290,22 @@ def explicit_cases(draw, tier="quick"):
     allow_nan = draw(st.sampled_from([False, False, True]))
     data = draw(gen.values_for(ps, 0, 60 if tier == "thorough" else 40, allow_nan=allow_nan))
     wkind, weights = draw(gen.weights_for(len(data)))
+    wdtype = None
+    if wkind == "int" and draw(st.integers(0, 2)) == 0:
+        # integer weights stored in a narrow type whose sums / squares leave that type
+        wdtype = draw(st.sampled_from(["int8", "uint8", "int16", "int32", "uint16"]))
+        heavy = {"int8": [100, 120, 7, 0], "uint8": [200, 255, 16, 0], "int16": [30000, 200, 3, 0], "int32": [100000, 2 ** 30, 5, 0], "uint16": [60000, 300, 1, 0]}[wdtype]
+        weights = [draw(st.sampled_from(heavy)) for _ in weights]
     dtype = draw(st.sampled_from([None, None, None, "int32", "int64", "float32", "float64"]))
+    if wdtype:
+        dtype = None
     return {
         "spec": spec, "pairs": ps, "data": data, "wkind": wkind, "weights": weights,
         "wform": draw(st.sampled_from(["array", "array", "list"])),
         "dtype": dtype, "keep_missed": draw(st.sampled_from([True, True, False])), "dropna": dropna,
         "rows": draw(st.sampled_from([None, None, 2, 3])), "as_int": draw(st.booleans()),
         "layout": draw(st.sampled_from([None, "fortran", "transposed_view", "both_fortran", "weights_fortran"])),
-        "use_defaults": draw(st.booleans()),
+        "use_defaults": draw(st.booleans()), "wdtype": wdtype,
     }
 
 
